@@ -4,6 +4,9 @@ For rules, correlation rules and filters that load: x.to_dict() -> from_dict -> 
 and (for rules) convert to the same queries; the same through YAML.  After one pipeline transformation the
 serialisation must either fail with a Sigma error or produce a dict whose reload converts to exactly what the
 transformed rule converts to.
+"Converts to the same queries" is judged in an environment in which every part of the document matters: a rule is
+also converted together with reference filters, a filter together with reference rules (log sources over all
+combinations of set / unset / empty-string attributes), because the log source decides which filters meet which rules.
 
 Correspondence with the Lean model (`Model/Ser.lean`, theorems in `Props/C06.lean`): the detection section of
 every rule / filter document is sent to the driver (`ser.case`), which loads it with the model's
@@ -27,7 +30,9 @@ RULE = ("rule documents with all metadata fields (dates in both accepted spellin
         "after any single transformation of the C12 list, after many-to-one field mappings over items with equal or different modifier "
         "chains (key collisions in to_plain's merging loop); distinct = distinct document; non-trivial = >= 2 detection items or a "
         "modifier chain or a correlation/filter document"
-        "; transformed rules incl. many-to-one field mappings over all modifier sets, extract_fields / hashes_fields; correlation rules converted with their referenced rules")
+        "; transformed rules incl. many-to-one field mappings over all modifier sets, extract_fields / hashes_fields; correlation rules converted with their referenced rules"
+        "; log sources over set / unset / empty-string category, product, service, definition and custom attributes, rules loaded with and without a source location; "
+        "rules converted together with reference filters and filters together with reference rules (one per log source shape)")
 ASSUMPTIONS = [
     "queries are compared as text produced by the test backend (same backend, same configuration on both sides)",
     "PyYAML is used for the YAML leg (safe_dump / safe_load)",
@@ -36,10 +41,54 @@ ASSUMPTIONS = [
 ]
 
 
+LS_VALUES = {"category": ["c", "c", "c2", ""], "product": ["p", "p", "p2", ""], "service": ["s", "s", ""], "definition": ["d", "some text", ""]}
+
+
+def gen_logsource(rnd):
+    """log sources: the three common shapes, and every attribute independently unset / set / set to the empty string
+    (an empty string is a value: it is compared when filters and log source conditions are matched); custom attributes"""
+    if rnd.random() < 0.4:
+        return rnd.choice([{"category": "c"}, {"product": "p", "service": "s"}, {"category": "c", "product": "p", "definition": "d"}])
+    ls = {}
+    for k in ("category", "product", "service"):
+        if rnd.random() < 0.55:
+            ls[k] = rnd.choice(LS_VALUES[k])
+    if not ls:
+        ls[rnd.choice(["category", "product", "service"])] = rnd.choice(["c", ""])
+    if rnd.random() < 0.25:
+        ls["definition"] = rnd.choice(LS_VALUES["definition"])
+    if rnd.random() < 0.08:      # custom attributes are written back as keys (regression of /repo 47b2b34)
+        ls[rnd.choice(["vendor", "x-custom"])] = rnd.choice(["v", "", "two words"])
+    return ls
+
+
+# one reference log source per shape over {unset, set, empty string} for category and product, and some with a service
+REF_LS = [{"category": "c"}, {"category": ""}, {"product": "p"}, {"product": ""}, {"category": "c", "product": "p"}, {"category": "", "product": "p"},
+          {"category": "c", "product": ""}, {"category": "", "product": ""}, {"product": "p", "service": "s"}, {"product": "p", "service": ""},
+          {"category": "c2", "service": "s"}, {"service": ""}]
+REF_NAMES = ["rule_a", "rule_b", "rule_c"]
+
+
+def ref_rules():
+    out = []
+    for n, ls in enumerate(REF_LS):
+        r = {"title": f"ref rule {n}", "name": REF_NAMES[n] if n < len(REF_NAMES) else f"ref_{n}", "logsource": dict(ls),
+             "detection": {"sel": {"r": f"v{n}"}, "condition": "sel"}}
+        if n == 3:
+            r["id"] = str(uuid.UUID(int=0x4001))
+        out.append(r)
+    return out
+
+
+def ref_filters():
+    return [{"title": f"ref filter {n}", "logsource": dict(ls), "filter": {"rules": "any", "flt": {f"x{n}": "y"}, "condition": "not flt"}}
+            for n, ls in enumerate(REF_LS)]
+
+
 def meta(rnd, i):
     d = {"title": f"Rule {i}", "id": str(uuid.UUID(int=0x4000 + i)), "status": rnd.choice(["test", "stable", "experimental"]),
          "level": rnd.choice(["low", "medium", "high", "critical", "informational"]), "description": "desc " + "x" * rnd.randint(0, 5),
-         "author": "a", "logsource": rnd.choice([{"category": "c"}, {"product": "p", "service": "s"}, {"category": "c", "product": "p", "definition": "d"}])}
+         "author": "a", "logsource": gen_logsource(rnd)}
     if rnd.random() < 0.6: d["date"] = rnd.choice(["2024-01-31", "2024/01/31", "1999-12-01", "2024/1/5", "2024/01/5", "2024/1/05", "3999/12/31", "1000-01-01"])
     if rnd.random() < 0.4: d["modified"] = rnd.choice(["2024-02-29", "2025/03/01", "2025/3/1", "2023/11/9"])
     if rnd.random() < 0.6: d["tags"] = rnd.sample(["attack.t1059", "attack.execution", "cve.2024-1234", "tlp.red"], 2)
@@ -81,7 +130,7 @@ def gen_filter(rnd, i):
     dets = {"flt": {"f": rnd.choice(["a", ["a", "b*"]])}}
     if rnd.random() < 0.5:
         dets["flt2"] = {"g|contains": "x"}
-    return {"title": f"Filter {i}", "id": str(uuid.UUID(int=0x7000 + i)), "logsource": {"category": "c"},
+    return {"title": f"Filter {i}", "id": str(uuid.UUID(int=0x7000 + i)), "logsource": gen_logsource(rnd),
             "filter": {"rules": rnd.choice(["any", ["rule_a"], [str(uuid.UUID(int=0x4001))]]), **dets, "condition": rnd.choice(["not flt", "flt", "not 1 of flt*"])}}
 
 
@@ -233,6 +282,8 @@ def gen_cases(tier, seed, gen, effort):
             if rnd.random() < 0.01:
                 doc["date"] = rnd.choice([{"__date__": [2024, 1, 31]}, {"__date__": [2024, 1, 31, 10, 0]}])   # YAML date / timestamp objects
             cases.append({"kind": "rule", "doc": doc})
+            if rnd.random() < 0.04:
+                cases[-1]["source"] = "rules/r.yml"          # loaded the way load_ruleset loads: with a source location (not part of the dict form: /repo 47b2b34)
         elif r < 0.75:
             cases.append({"kind": "corr", "doc": gen_corr(rnd, i)})
         elif r < 0.85:
@@ -382,6 +433,28 @@ def convert_corr(doc):
         return "ERR:" + outcome_of_exception(e)
 
 
+def convert_with_filters(rule_obj):
+    """the rule converted together with the reference filters: which of them meet the rule is decided by the log source"""
+    from sigma.collection import SigmaCollection
+    from sigma.filters import SigmaFilter
+    from sigma.backends.test import TextQueryTestBackend
+    try:
+        coll = SigmaCollection([copy.deepcopy(rule_obj)] + [SigmaFilter.from_dict(f) for f in ref_filters()], resolve_references=False)
+        return TextQueryTestBackend().convert(coll)
+    except Exception as e:
+        return "ERR:" + outcome_of_exception(e)
+
+
+def convert_filter(doc):
+    """the filter document applied to the reference rules (one per log source shape), all converted"""
+    from sigma.collection import SigmaCollection
+    from sigma.backends.test import TextQueryTestBackend
+    try:
+        return TextQueryTestBackend().convert(SigmaCollection.from_dicts(ref_rules() + [copy.deepcopy(doc)]))
+    except Exception as e:
+        return "ERR:" + outcome_of_exception(e)
+
+
 def canon_condition(rule_obj):
     """the rule's post-processed condition trees in a normal form modulo associativity, commutativity and idempotence
     of AND / OR (operands flattened, sorted, duplicates dropped): equal normal forms are logically equivalent"""
@@ -423,7 +496,11 @@ def run_impl(case):
     cls = {"rule": SigmaRule, "corr": SigmaCorrelationRule, "filter": SigmaFilter, "transformed": SigmaRule}[case["kind"]]
     srcdoc = thaw(case["doc"])
     try:
-        obj = cls.from_dict(copy.deepcopy(srcdoc))
+        if case.get("source"):
+            from sigma.exceptions import SigmaRuleLocation
+            obj = cls.from_dict(copy.deepcopy(srcdoc), source=SigmaRuleLocation(case["source"]))
+        else:
+            obj = cls.from_dict(copy.deepcopy(srcdoc))
     except Exception as e:
         return {"outcome": "load:" + outcome_of_exception(e), "msg": str(e)[:120]}
     out = {"outcome": "ok"}
@@ -468,13 +545,18 @@ def run_impl(case):
         obj2 = cls.from_dict(copy.deepcopy(d1))
         d2 = obj2.to_dict()
         out["fixed_point"] = d1 == d2
+        out["ls1"] = d1.get("logsource")
         if d1 != d2:
             out["diff"] = [k for k in set(d1) | set(d2) if d1.get(k) != d2.get(k)]
+            out["ls2"] = d2.get("logsource")
         y = yaml.safe_dump(d1, sort_keys=False)
         obj3 = cls.from_dict(yaml.safe_load(y))
         out["yaml_fixed_point"] = obj3.to_dict() == d1
         if case["kind"] == "rule":
             out["q1"], out["q2"], out["q3"] = convert(cls.from_dict(copy.deepcopy(srcdoc))), convert(obj2), convert(obj3)
+            out["qf1"], out["qf2"], out["qf3"] = convert_with_filters(cls.from_dict(copy.deepcopy(srcdoc))), convert_with_filters(obj2), convert_with_filters(obj3)
+        if case["kind"] == "filter":
+            out["q1"], out["q2"], out["q3"] = convert_filter(srcdoc), convert_filter(d1), convert_filter(yaml.safe_load(y))
         if case["kind"] == "corr":
             out["q1"], out["q2"], out["q3"] = convert_corr(srcdoc), convert_corr(d1), convert_corr(yaml.safe_load(y))
         if case["kind"] == "transformed":
@@ -516,6 +598,9 @@ def make_request(case, impl, gen):
                  "dates": [cps(doc[k]) if isinstance(doc.get(k), str) else [] for k in ("date", "modified")]}
             if cond is not None:
                 r["cond"] = cond
+            ls = doc.get("logsource")
+            if isinstance(ls, dict) and not case.get("source") and all(k in LS_NAMED and isinstance(v, str) for k, v in ls.items()):
+                r["logsource"] = [[k, cps(v)] for k, v in ls.items()]
             g = gen.get("B64") if gen else None
             if g:
                 r["tables"] = {"starts": g["starts"], "cuts": g["cuts"]}
@@ -588,6 +673,20 @@ def classify(case):
     return None
 
 
+LS_NAMED = ("category", "product", "service", "definition")
+
+
+def _qdiff(q1, q2, q3):
+    """the first position where the query lists differ, with the log source of the reference rule if there is one per query"""
+    if not (isinstance(q1, list) and isinstance(q2, list) and isinstance(q3, list)):
+        return f"{q1} / reloaded {q2} / via YAML {q3}"
+    for n, (a, b, c) in enumerate(zip(q1, q2, q3)):
+        if not (a == b == c):
+            ref = f" (reference rule with log source {REF_LS[n]})" if len(q1) == len(REF_LS) else ""
+            return f"{a!r}, reloaded {b!r}, via YAML {c!r}{ref}"
+    return f"{len(q1)} / {len(q2)} / {len(q3)} queries"
+
+
 SER_ERR = {"refused": ("sigma:SigmaValueError",), "empty": ("sigma:SigmaDetectionError",), "condition": ("sigma:SigmaConditionError",)}
 
 
@@ -627,6 +726,10 @@ def correspondence(case, impl, reply):
         return f"model writes {reply['plain']}, implementation raised {impl['todict']}", ["model:writes"]
     if impl["plain"] != reply["plain"]:
         return f"dict form: model {reply['plain']} implementation {impl['plain']}", ["model:writes"]
+    if isinstance(reply.get("logsource"), list) and isinstance(impl.get("ls1"), dict):
+        mine = [[k, cps(v)] for k, v in impl["ls1"].items() if isinstance(v, str)]
+        if mine != reply["logsource"]:
+            return f"log source {case['doc'].get('logsource')}: model writes {[(k, ''.join(map(chr, v))) for k, v in reply['logsource']]}, implementation {impl['ls1']}", ["model:writes"]
     if kind == "rule":
         want = [cps(x) if isinstance(x, str) else None for x in impl["dates"]]
         got = [d if d else None for d in reply["dates"]]
@@ -659,7 +762,7 @@ def decide(case, impl):
     """the deciding judgements: on the real code only"""
     io = impl["outcome"]
     doc = case["doc"]
-    key = (case["kind"], doc, case.get("t"))
+    key = (case["kind"], doc, case.get("t"), case.get("source"))
     nt = True
     tags = [f"kind:{case['kind']}", f"impl:{io.split(':')[0]}"]
     fid = classify(case)
@@ -685,9 +788,20 @@ def decide(case, impl):
                                          f"while the transformed rule converts to {impl['q_obj']} :: {doc['detection']}"), nt, key, finding=fid, tags=tuple(tags))
         return Verdict("ok", "", nt, key, tags=tuple(tags + ["serialised"]))
     if not impl["fixed_point"]:
+        if impl.get("diff") == ["logsource"]:
+            return Verdict("violation", (f"{case['kind']} with log source {doc.get('logsource')}{' loaded with a source location' if case.get('source') else ''}: the dict form "
+                                         f"of the reloaded object differs from the dict form written first (log source written as {impl.get('ls1')}, after reloading as {impl.get('ls2')})"),
+                           nt, key, finding=fid, tags=tuple(tags + ["logsource"]))
         return Verdict("violation", f"{case['kind']}: to_dict(from_dict(to_dict(x))) differs from to_dict(x) in {impl.get('diff')} :: {doc.get('detection', doc)}", nt, key, finding=fid, tags=tuple(tags))
     if not impl["yaml_fixed_point"]:
         return Verdict("violation", f"{case['kind']}: YAML dump/load changes the dict form :: {doc.get('detection', doc)}", nt, key, finding=fid, tags=tuple(tags))
+    if case["kind"] == "filter" and not (impl["q1"] == impl["q2"] == impl["q3"]):
+        return Verdict("violation", (f"filter with log source {doc.get('logsource')}, written with log source {impl.get('ls1')}: applied to reference rules (one per log source shape) "
+                                     f"the original and the reloaded filter give different queries: {_qdiff(impl['q1'], impl['q2'], impl['q3'])}"), nt, key, finding=fid, tags=tuple(tags + ["logsource"]))
+    if case["kind"] == "rule" and impl["q1"] == impl["q2"] == impl["q3"] and not (impl["qf1"] == impl["qf2"] == impl["qf3"]):
+        return Verdict("violation", (f"rule with log source {doc.get('logsource')}, written with log source {impl.get('ls1')}: converted together with reference filters (one per log "
+                                     f"source shape, each adding 'not x<n>=y') the original and the reloaded rule give different queries: {_qdiff(impl['qf1'], impl['qf2'], impl['qf3'])}"),
+                       nt, key, finding=fid, tags=tuple(tags + ["logsource"]))
     if case["kind"] == "corr" and not (impl["q1"] == impl["q2"] == impl["q3"]):
         return Verdict("violation", f"correlation rule converts to {impl['q1']} but its serialised form to {impl['q2']} / via YAML {impl['q3']} :: {doc['correlation']}", nt, key, finding=fid, tags=tuple(tags))
     if case["kind"] == "rule" and not (impl["q1"] == impl["q2"] == impl["q3"]):
